@@ -269,11 +269,13 @@ class ActivityAnalyzer(transformer.Base):
 
   def visit_arg(self, node):
     """Mark function parameter (ast.arg) in scope. Requires QnResolver has run."""
-    node = self.generic_visit(node)
     if self._track_annotations_only:
       # Only the annotations affect the defining scope. The parameter itself is
       # bound in the scope of the function.
+      if node.annotation is not None:
+        node.annotation = self._process_annotation(node.annotation)
       return node
+    # The annotation was evaluated in (and accounted to) the defining scope.
     if not anno.hasanno(node, anno.Basic.QN):
       return node
     qn = anno.getanno(node, anno.Basic.QN)
